@@ -1,6 +1,8 @@
 package checks
 
 import (
+	"strings"
+
 	"verif/drv"
 	"verif/ev"
 	"verif/mc"
@@ -119,8 +121,8 @@ func c18Alphabet(slots []string, nkeys int, thorough bool, batchGet bool) func(m
 			for i := 1; i <= nkeys; i++ {
 				k := c18Key(t.Cfg, i)
 				add("Put", drv.Op{K: drv.KPut, Table: s, Item: with(k, "a", val.S("v"), "g", val.S("x"))})
-				if i == 1 && s == slots[0] {
-					// (first slot only, to keep the quick tier small) an item without the attributes the indexes are keyed on: it stays out of every
+				if i == 1 && s == slots[0] && (thorough || !strings.HasPrefix(slots[len(slots)-1], "c2:")) {
+					// (first slot only, and in the quick tier only in the one-client system, to keep it small) an item without the attributes the indexes are keyed on: it stays out of every
 					// index, also of one created later on the populated table
 					add("Put(key only)", drv.Op{K: drv.KPut, Table: s, Item: k.Clone()})
 				}
